@@ -8,7 +8,7 @@ import interp
 from common import Result, pmap, compare, VERIF, canon_py
 
 ID = 'C05'
-COQ_FILES = ['Properties/C05.v', 'Proofs/LexicalProofs.v', 'Proofs/Digits.v', 'Gen/Grammar.v']
+COQ_FILES = ['Properties/C05.v', 'Proofs/Whitespace.v', 'Proofs/LexicalProofs.v', 'Proofs/Digits.v', 'Gen/Grammar.v']
 TRUSTED = [
     'Gen/Grammar.v regenerated each run (tables, lexer rule order and regex texts compared with the ones Model/Lexer.v '
     'transcribes, the set of \\s code points of this interpreter)',
@@ -16,8 +16,9 @@ TRUSTED = [
     'short strings over a class-representative alphabet), ply lexer/parser drivers, int()/float() on digit strings',
 ]
 EXPLANATION = ('Coq theorems: integer / decimal / percent / power literals evaluate to exactly the number spelled, a quoted literal '
-               'to exactly its content; leading white space and any white space between tokens that stand alone (operators, '
-               'separators, brackets, number literals of any length) leave the token sequence unchanged; for every '
+               'to exactly its content; white space - any amount, possibly none - at ANY subset of the token boundaries leaves the token sequence unchanged '
+               'whenever the local condition on the next character holds (punctuation may be followed by anything; a number, name, cell '
+               'or text by white space, an operator, a separator or a closing bracket; a function name by its parenthesis only); for every '
                'present/absent pattern of up to 6 slots the three separators agree and an accepted call passes exactly the slot '
                'list with blanks (evaluation of the real driver on the generated tables); array literal shapes; cell labels are '
                'case-insensitive. Tied to the code by the lexer correspondence (every string of length <= 3/4 over 26 class '
